@@ -581,7 +581,7 @@ func runC37Case(cs c37Case) (string, []lib.Problem) {
 // exercised) and performs the server's own kinds of work on it: a read and a
 // schema write (the server builds indexes on demand).
 func poolProblem(pool *sql.DB) string {
-	ctx, cancel := context.WithTimeout(context.Background(), 20*time.Second)
+	ctx, cancel := context.WithTimeout(context.Background(), 5*time.Minute)
 	defer cancel()
 	n := pool.Stats().OpenConnections + 1
 	var conns []*sql.Conn
